@@ -156,7 +156,7 @@ def run(ctx, quick):
     # ---- values: every accepted expression evaluated on data; values must inhabit the SPEC type and equal ceval
     ok_ids = [i for i in acc if eng.get(i, ("ERR",))[0] == "OK" and not any(k in ex[i][0] for k in ("Mod", "Power"))]   # mod / power: outside the value model
     if quick:
-        ok_ids = ctx.rng.sample(ok_ids, min(400, len(ok_ids)))
+        ok_ids = ctx.rng.sample(ok_ids, min(250, len(ok_ids)))
     df = frame()
     rows_coq = coq_list([f"([{G.V.to_val(r[0], 'Integer')}], [{'; '.join(G.V.to_val(v, t[1]) for v, t in zip(r[1:], COMPS[1:]))}])" for r in ROWS])
     env = f'[("DS_1", mkD ["Id_1"] ["Me_i"; "Me_n"; "Me_s"; "Me_b"] {rows_coq})]'
@@ -175,7 +175,8 @@ def run(ctx, quick):
             vh["engine_errors"][str(code)] = vh["engine_errors"].get(str(code), 0) + 1
             if mv[0] == "Err" and (mv[1][1] if isinstance(mv[1], tuple) else str(mv[1])) == code:
                 continue
-            fam = "boolean-promoted-to-string" if mt[i][2] is None else "other"
+            fam = ("boolean-promoted-to-string" if mt[i][2] is None else
+                   "null-operand-incompatible-bounds" if (label == "CBetween" and ops[0] == "lit:Null") else "other")
             ctx.violation(f"well-typed-fails:{fam}:{label}" + ("" if fam != "other" else ":" + "/".join(ops)),
                           f"calc Me_9 := {vtl} is accepted by semantic analysis (type {eng[i][1]}) but run() fails with {r['err']} {r['msg'][:140]}; "
                           f"the model evaluates it to {str(mv)[:120]}", {"expr": vtl, "coq": coq, "engine_error": list(r["err"]), "model": str(mv)[:400]})
